@@ -36,7 +36,7 @@ MANIFEST = {
                   "and mutations): masked byte equality, second decode, third encode on the real implementation.",
     "level_note": "Trusted: Coq kernel, extraction, OCaml/Go glue, the hand transcription of the Go text into C01Model.v (tied to "
                   "/repo by the correspondence run on every check), the scanner and generators of the harness. The model follows "
-                  "the SliceReader path; reader-path differences are counted, not modelled (C03). Not modelled: "
+                  "the SliceReader path; reader-path differences are counted, not modelled (C03). esds fuel: box size + 65536 (descriptor count and nesting of slices below 128 KiB), beyond that the model answers OutOfFuel. Not modelled: "
                   "the per-sample structure of senc (kept raw, as DecodeSencSR does), wvtt, stpp, meta/ilst (explored only); the File-level acceptance checks of "
                   "DecodeFileSR (moov stts chain, mdat placement, senc parsing). c01_dontcare.json: entries with source=model are "
                   "regenerated from the model (rsv_dc marks which captured chunks are ISO reserved) on every run; source=hand entries are "
